@@ -446,6 +446,14 @@ def fstring_prefix_rule(ctx, res, rule: str) -> None:
                 and any(pol and True for _, pol in rcfg.guards(nd.id)):
             keep_nodes.append(nd)
     if not keep_nodes:
+        # the same decision without a sentinel: the branch `continue`s before the replacement is filed
+        loops = [l for l in walk_local(rcf.node) if isinstance(l, ast.For) and any(call_name(c) == "add_change" and len(c.args) == 3 for c in calls_in(l))
+                 and any(isinstance(k, ast.Call) and call_name(k) == "ignored_regions" for k in ast.walk(l.iter))]
+        for nd in rcfg.nodes:
+            if nd.kind == "stmt" and isinstance(nd.ast, ast.Continue) and any(any(y is nd.ast for y in ast.walk(l)) for l in loops) \
+                    and any(pol and True for _, pol in rcfg.guards(nd.id)):
+                keep_nodes.append(nd)
+    if not keep_nodes:
         raise AnalysisError("anchor=simplify.real_code: the 'keep this string' branch (replacement = None) not found")
     folder9 = fold.get(ctx)
     prefixes = sorted(tokenize._all_string_prefixes())
@@ -667,7 +675,12 @@ def fstring_aware_bracket_rule(ctx, res, rule: str = "R14.16") -> None:
             for x in [w.test] + [y for st in w.body for y in ast.walk(st)]:
                 for cmp_ in ([x] if isinstance(x, ast.Compare) else [y for y in ast.walk(x) if isinstance(y, ast.Compare)] if x is w.test else []):
                     s = const_str(cmp_.comparators[0]) if len(cmp_.ops) == 1 else None
-                    if s and set(s) <= set("([{") and isinstance(cmp_.left, ast.Subscript) and is_self_attr(cmp_.left.value, "code"):
+                    left = cmp_.left
+                    if isinstance(left, ast.Name):  # `char = self.code[offset]` ... `char in "[({"`
+                        bound = [a.value for a in walk_local(m.node) if isinstance(a, ast.Assign) and len(a.targets) == 1 and isinstance(a.targets[0], ast.Name) and a.targets[0].id == left.id]
+                        if len(bound) == 1:
+                            left = bound[0]
+                    if s and set(s) <= set("([{") and isinstance(left, ast.Subscript) and is_self_attr(left.value, "code"):
                         stops.append(cmp_)
             if not stops:
                 continue
